@@ -105,7 +105,8 @@ def check_one(case, ctx, deep):
         check_lattice(lattice, '', case, ref, maps, ctx, plain)
         d = ctx.call('todict', plain, context.todict)
         loaded = ctx.call('fromdict', plain, concepts.Context.fromdict, d)
-        ctx.check('lattice' in loaded.__dict__, 'fromdict/lattice-present', plain, 'stored lattice not loaded')
+        if 'lattice' in getattr(loaded, '__dict__', {}):   # not required by the statement - only counted for the evidence
+            ctx.count('reloaded_with_stored_lattice_attached')
         check_lattice(loaded.lattice, 'fromdict/', case, ref, maps, ctx, plain)
         rnd = gen._random.Random(repr((case['r'], ctx.seed, 'raw')))
         pd = permuted_dict(d, rnd)
